@@ -250,3 +250,88 @@ input In { x: Float y: [Float64] z: Int = 3 w: [Float] }
 	}
 	return done
 }
+
+// c04Box is the Go struct an application registers for the input type Box: its list members are slices of plain Go
+// kinds, which have no room for a null element.
+type c04Box struct {
+	Nums  []int
+	Words []string
+	Grid  [][]int
+}
+
+type c04BoxRoot struct{ got []*c04Box }
+
+func (r *c04BoxRoot) Resolve(field *ggql.Field, args map[string]interface{}) (interface{}, error) {
+	if field.Name == "query" {
+		return r, nil
+	}
+	b, _ := args["b"].(*c04Box)
+	r.got = append(r.got, b)
+	return fmt.Sprintf("%+v", b), nil
+}
+
+// c04RegisteredLists: an input type bound to a Go struct (RegisterType) whose list members are []int / []string / [][]int.
+// A null element the client wrote can not be held by such a slice: the request is refused for that field and the resolver
+// does not run - a zero (0, "") in its place would be a silently altered value. Lists without nulls arrive as written.
+func c04RegisteredLists(c *run.Ctx) int {
+	const sdl = `input Box { nums: [Int] words: [String] grid: [[Int]] } type Query { f(b: Box): String }`
+	type rq struct {
+		text    string
+		vars    map[string]interface{}
+		hasNull bool
+		want    string
+	}
+	reqs := []rq{
+		{`{ f(b: {nums: [1, 2, 3]}) }`, nil, false, "&{Nums:[1 2 3] Words:[] Grid:[]}"},
+		{`{ f(b: {nums: [1, null, 3]}) }`, nil, true, ""},
+		{`{ f(b: {words: ["a", null]}) }`, nil, true, ""},
+		{`{ f(b: {grid: [[1, null], [2]]}) }`, nil, true, ""},
+		{`{ f(b: {grid: [[1], [2, 3]]}) }`, nil, false, "&{Nums:[] Words:[] Grid:[[1] [2 3]]}"},
+		{`query($b: Box){ f(b: $b) }`, map[string]interface{}{"b": map[string]interface{}{"nums": []interface{}{1, nil}}}, true, ""},
+		{`query($b: Box){ f(b: $b) }`, map[string]interface{}{"b": map[string]interface{}{"words": []interface{}{"x", "y"}}}, false, "&{Nums:[] Words:[x y] Grid:[]}"},
+		{`query($n: Int){ f(b: {nums: [4, $n]}) }`, map[string]interface{}{"n": nil}, true, ""},
+		{`query($n: Int){ f(b: {nums: [4, $n]}) }`, nil, true, ""},
+		{`query($n: Int = 5){ f(b: {nums: [4, $n]}) }`, nil, false, "&{Nums:[4 5] Words:[] Grid:[]}"},
+		{`query($w: [String] = ["d", null]){ f(b: {words: $w}) }`, nil, true, ""},
+	}
+	done := 0
+	for round := 0; round < c.N(10, 100); round++ {
+		r := c.Rand(1500000 + round)
+		ro := &c04BoxRoot{}
+		root := ggql.NewRoot(ro)
+		if err := root.ParseString(sdl); err != nil {
+			c.Violation("c04-schema-rejected", map[string]interface{}{"error": err.Error()})
+			return done
+		}
+		if err := root.RegisterType(&c04Box{}, "Box"); err != nil {
+			c.Violation("c04-schema-rejected", map[string]interface{}{"error": "RegisterType: " + err.Error()})
+			return done
+		}
+		var hist []string
+		for k := 0; k < 4+r.Intn(6); k++ {
+			q := reqs[r.Intn(len(reqs))]
+			ro.got = nil
+			var res map[string]interface{}
+			pv, _ := run.Protect(func() { res = root.ResolveString(q.text, "", copyVars(q.vars)) })
+			hist = append(hist, q.text+" "+fmt.Sprint(q.vars))
+			done++
+			c.Eval("registered-lists|"+q.text+fmt.Sprint(q.vars), true)
+			c.Count("requests_with_lists_bound_to_go_slices", 1)
+			diag := ""
+			data, _ := res["data"].(map[string]interface{})
+			switch {
+			case pv != nil:
+				diag = fmt.Sprintf("panic: %v", pv)
+			case q.hasNull && (len(ro.got) != 0 || res["errors"] == nil):
+				diag = fmt.Sprintf("a null list element was written: the resolver ran %d time(s) and received %v, errors = %v", len(ro.got), data["f"], res["errors"])
+			case !q.hasNull && res["errors"] == nil && strings.ReplaceAll(fmt.Sprint(data["f"]), "[]", "[]") != q.want:
+				diag = fmt.Sprintf("the resolver received %v, the client wrote %s", data["f"], q.want)
+			}
+			if diag != "" {
+				c.Violation("c04-registered-lists", map[string]interface{}{"sdl": sdl, "history": hist, "diag": diag, "response": fmt.Sprint(res)})
+				break
+			}
+		}
+	}
+	return done
+}
